@@ -80,7 +80,7 @@ def _gen_batch_cases(rng, n):
     while len(cases) < n:
         B = rng.choice([1, 2, 3])
         r_out = rng.randint(0, 3)
-        out = [rng.choice([1, 2, 3]) for _ in range(r_out)]
+        out = [rng.choice([1, 2, 3, 2, 3]) for _ in range(r_out)]
 
         def operand():
             r = rng.randint(0, r_out)
@@ -195,6 +195,16 @@ def tie_batcher(ctx):
                                                 "rank_deficient_batched_operand": sum(
                                                     1 for c in cases if _rank_deficient(c))}})
     ctx.samples += [{"batcher_case": desc(i)} for i in range(min(4, len(rows)))]
+    # the hypothesis of C10_batcher_correct_partial, evaluated on the generated cases: inside the fragment the REAL code must
+    # be right (theorem + tie); outside it, it is wrong on all but degenerate data (how exact the hypothesis is: measured)
+    wrong_set = {w[0] for w in wrong}
+    table = {"in_fragment_right": 0, "in_fragment_wrong": 0, "outside_right": 0, "outside_wrong": 0}
+    for c in cases:
+        inside = _in_fragment(c)
+        table[("in_fragment_" if inside else "outside_") + ("wrong" if c in wrong_set else "right")] += 1
+    ctx.coverage["partial_theorem_fragment_vs_real_code"] = table
+    ctx.oblige("tie:real-batcher-is-vmap-on-the-fragment-of-C10_batcher_correct_partial", table["in_fragment_wrong"] == 0, "tie",
+               "" if table["in_fragment_wrong"] == 0 else f"{table}")
     # search on the real code: the batcher level witness
     if wrong:
         (sx, dx, sy, dy), got, want = wrong[0]
@@ -205,6 +215,17 @@ def tie_batcher(ctx):
                     f"({len(wrong)} of {len(rows)} generated cases; _handle_scalar_broadcasting appends the new axes at the end)",
                     {"kind": "batcher", "x_shape": list(sx), "x_bdim": dx, "y_shape": list(sy), "y_bdim": dy})
     return fixed_code
+
+
+def _in_fragment(c):
+    """Batch.ranks_uniform_or_unit"""
+    sx, dx, sy, dy = c
+    px = [d for i, d in enumerate(sx) if i != dx] if dx is not None else list(sx)
+    py = [d for i, d in enumerate(sy) if i != dy] if dy is not None else list(sy)
+    n1 = max(len(px), len(py))
+    okx = dx is None or len(px) == n1 or all(d == 1 for d in px)
+    oky = dy is None or len(py) == n1 or all(d == 1 for d in py)
+    return okx and oky
 
 
 def _rank_deficient(c):
@@ -482,6 +503,8 @@ def _transforms(name, spec):
     return T
 
 
+T_PRIORITY = ["vmap0", "vmap(0,None)", "vmap(None,0)", "vmap(1,0)", "vmap1", "vmap0_out1", "grad", "vjp", "jvp", "jit", "nested_jit",
+              "custom_jvp", "custom_vjp", "checkpoint", "value_and_grad", "grad_of_custom_vjp"]
 QUICK_T = {"vmap0", "vmap(0,None)", "vmap(None,0)", "vmap(1,0)", "vmap1", "vmap0_out1", "jit", "nested_jit", "grad",
            "jvp", "vjp", "checkpoint", "custom_jvp", "custom_vjp", "grad_of_custom_vjp", "value_and_grad"}
 
@@ -551,7 +574,8 @@ def explore(ctx, budget_s):
     order = {}
     for j in jobs:
         order.setdefault(j[1], []).append(j)
-    jobs = [j for tn in sorted(order, key=lambda t: (t not in QUICK_T, t)) for j in order[tn]]
+    prio = {t: i for i, t in enumerate(T_PRIORITY)}
+    jobs = [j for tn in sorted(order, key=lambda t: (prio.get(t, len(prio)), t)) for j in order[tn]]
     for (name, tn, fn, shapes) in jobs:
         if time.time() - t0 > budget_s:
             skipped_budget += 1
@@ -692,16 +716,25 @@ def run(ctx):
         "tools/py2coq.translate_constants + tools/units/c10_units.py (lists read from the current source)",
         "onnxruntime CPU as the ONNX semantics, jax (eager) as the reference for T(f); float32, rtol 1e-4 / atol 1e-5",
     ]
+    phases = {}
+    t = time.time()
     common.build_props(ctx, "C10", GEN_UNITS)
+    phases["coq_build_s"] = round(time.time() - t, 1)
+    t = time.time()
     tie_batcher(ctx)
     tie_inline(ctx)
     tie_linear(ctx)
-    elapsed = time.time() - ctx.t0
-    budget = (200 if ctx.tier == "quick" else 1080) - elapsed
-    stats = explore(ctx, max(30.0, budget))
+    phases["ties_s"] = round(time.time() - t, 1)
+    t = time.time()
+    # time budgets are per phase (a loaded machine skips jobs, it never changes a verdict)
+    stats = explore(ctx, 110.0 if ctx.tier == "quick" else 420.0)
+    phases["explore_s"] = round(time.time() - t, 1)
     rstats = {}
     if ctx.tier != "quick":
-        rstats = explore_registry(ctx, max(60.0, 1380 - (time.time() - ctx.t0) - 60))
+        t = time.time()
+        rstats = explore_registry(ctx, max(120.0, min(600.0, 1380 - (time.time() - ctx.t0))))
+        phases["registry_s"] = round(time.time() - t, 1)
+    ctx.coverage["phase_seconds"] = phases
     ctx.level = "proof"
     ctx.coverage.update({
         "evaluations": ctx.coverage.get("batcher_cases", 0) + ctx.coverage.get("transform_exports", 0) + ctx.coverage.get("linear_evaluations", 0)
